@@ -17,7 +17,7 @@ from .c18 import _merge_canaries
 
 PROP = "C14"
 OPS = ("rate", "predict_win", "predict_draw", "predict_rank")
-SHAPES_QUICK = [((1, 1), None), ((2, 1), [2, 1]), ((1, 1, 1), [1, 2, 1])]
+SHAPES_QUICK = [((1, 1), None), ((2, 1), [2, 1]), ((1, 1, 1), [1, 2, 1]), ((5, 2), [2, 1])]
 SHAPES_THOROUGH = SHAPES_QUICK + [((1, 2), [1, 1]), ((2, 2, 1), None), ((1, 1, 1, 1), [3, 1, 1, 2]), ((1, 1, 1, 1, 1), None)]
 ALLOWED_READERS = {"__deepcopy__", "__init__"}
 
